@@ -85,6 +85,82 @@ def evaluate(case):
         M.stop()
 
 
+# ---- leg (c): synthetic schedules with the monitor on the search / matcher objects -----------------------------------
+def sched_jobs(tier):
+    import itertools
+    from props import c17_search as c17
+    cfg = [('search', 3, 2, None), ('search', 2, 3, None), ('matcher', 1, 4, None), ('matcher', 2, 4, 1)]
+    if tier != 'quick':
+        cfg = [('search', 4, 2, None), ('search', 3, 3, 3), ('search', 2, 3, None), ('matcher', 1, 4, None), ('matcher', 2, 4, 2), ('matcher', 1, 6, 2)]
+    out = []
+    for target, R, n, bound in cfg:
+        for coll in itertools.product(c17.item_types(R), repeat=n):
+            # user-supplied initial_bounds are not used for any pair of trees (C04 quantifies over objects the library
+            # creates for a diff); the search's result under sound initial bounds is C17's business
+            for init in (None,):
+                out.append((target, R, n, bound, coll, init))
+    return out
+
+
+def sched_eval(job):
+    from props import c17_search as c17
+    from mc import hidden
+    target, R, n, bound, coll, init = job
+    monitor.install()
+    M = monitor.MON
+
+    def hook(phase):
+        if phase == 'start':
+            M.reset(active=True)
+            return None
+        M.finish()
+        if M.violations:
+            rule, cls, detail = M.violations[0]
+            return (f'{rule} @ {cls}', detail)
+        return None
+
+    hidden.install()
+    try:
+        with time_limit(CASE_TIMEOUT * 10):
+            if target == 'matcher':
+                fn = c17.TARGETS['matcher']
+                c17.TARGETS['matcher'] = (lambda coll_, ch_: fn(coll_, ch_, (2, n // 2)))
+                try:
+                    execs, fail, _ = c17.run_one(target, coll, bound, init, hook)
+                finally:
+                    c17.TARGETS['matcher'] = fn
+            else:
+                execs, fail, _ = c17.run_one(target, coll, bound, init, hook)
+    except CaseTimeout:
+        return 0, {'key': f'timeout @ {target} schedules', 'detail': repr(coll)}
+    finally:
+        M.stop()
+        hidden.uninstall()
+    if fail:
+        return execs, {'key': f'{fail["kind"]} : synthetic schedules on {target}',
+                       'detail': f'items {coll} init {init} schedule {fail["choices"]}: {fail["detail"]}'}
+    return execs, None
+
+
+def _sched_shard(i, n, tier, payload):
+    r = Result()
+    monitor.MON.by_class = {}
+    for idx, job in enumerate(sched_jobs(tier)):
+        if idx % n != i:
+            continue
+        execs, fail = sched_eval(job)
+        r.evaluations += execs
+        r.traces += execs
+        r.extra['schedule_executions'] = r.extra.get('schedule_executions', 0) + execs
+        if fail:
+            r.fail(fail['key'], {'sched': [job[0], job[1], job[2], job[3], [list(c) for c in job[4]], list(job[5]) if job[5] else None]},
+                   fail['detail'], order=10 ** 7 + idx)
+        else:
+            r.outcomes.add(h(('sched', job[0], job[4], job[5])))
+    r.extra['monitored_schedules'] = {f'{c}.{k}': v for c, st in monitor.MON.by_class.items() for k, v in st.items()}
+    return r
+
+
 def _shard(i, n, tier, payload):
     r = Result()
     monitor.MON.by_class = {}
@@ -104,11 +180,15 @@ def _shard(i, n, tier, payload):
 
 def run(ctx):
     res = run_sharded(ctx, __name__, '_shard', ctx.workers * 4)
+    res.merge(run_sharded(ctx, __name__, '_sched_shard', ctx.workers * 8))
     res.extra['drivers'] = list(DRIVERS)
     res.extra['classes_wrapped'] = monitor.install()
     return res
 
 
 def replay(case):
+    if 'sched' in case:
+        t, R, n, bound, coll, init = case['sched']
+        return sched_eval((t, R, n, bound, tuple(tuple(c) for c in coll), tuple(init) if init else None))[1]
     fail, _ = evaluate(case)
     return fail
